@@ -107,5 +107,7 @@ def resample_to_approx_dt(asig, target_dt=0.01, even=True):
     new_npts = factor * asig.npts
     if even:
         new_npts = 2 * int(new_npts / 2)
+    else:
+        new_npts = int(np.round(new_npts))
     acc_interp = resample(asig.values, new_npts)
     return eqsig.AccSignal(acc_interp, asig.dt / factor)
